@@ -325,9 +325,9 @@ def shards(tier, seed, nworkers):
         specs.append({"kind": "sweep", "part": [i, nsw], "nrandom": 1 if q else 24, "sweepfull": 0 if q else 64})
     nsh = 4 if q else nworkers * 2
     for i in range(nsh):
-        # (thorough sized to about 25 minutes on 16 idle cores: one shard of the former size, 8 000 / 1 000 / 4 000 / 24 / 60, took 41 CPU minutes)
-        specs.append({"kind": "random", "shard": i, "nsmall": (240 if q else 3000) // nsh, "full": 200 if q else 600,
-                      "nbig": (160 if q else 1200) // nsh, "nrandom": 6 if q else 16, "bigfull": 0 if q else 30})
+        # (thorough: 3 000 / 600 / 1 200 / 16 / 30 took 2.5 minutes on 16 cores next to other work, 8 000 / 1 000 / 4 000 / 24 / 60 more than 100; this is in between)
+        specs.append({"kind": "random", "shard": i, "nsmall": (240 if q else 6000) // nsh, "full": 200 if q else 800,
+                      "nbig": (160 if q else 2500) // nsh, "nrandom": 6 if q else 20, "bigfull": 0 if q else 40})
     return specs
 
 
